@@ -24,7 +24,7 @@ var readEntryPoints = []string{"Unpack", "UnpackWithoutOptions", "Bool", "Int", 
 func checkC11(c *Ctx, r *Report) {
 	e := c.E1()
 	e1Assumptions(r, e)
-	r.Rule("R11a", "the receiver of a read entry point (and the source of Merge/NewFrom) is in no mod set: no store, map update, element store, copy/delete or reflect setter through a pointer derived from it, in the entry point or anything it calls", 40)
+	r.Rule("R11a", "the receiver of a read entry point (and the source of Merge/NewFrom) is in no mod set: no store, map update, element store, copy/delete or reflect setter through a pointer derived from it, in the entry point or anything it calls", 66)
 	r.Rule("R11b", "no read entry point reaches a non-atomic write to a package-level variable or map, and nothing derived from the receiver is stored into package-level state", 18)
 	type ep struct {
 		fn   *ssa.Function
@@ -47,11 +47,12 @@ func checkC11(c *Ctx, r *Report) {
 			continue
 		}
 		r.Analysed["entry points"]++
-		for _, deep := range []bool{false, true} {
-			sl := 2 * p.idx
+		for _, sl := range paramSlots(p.idx) {
 			what := p.role + " object"
-			if deep {
-				sl++
+			switch sl % nLv {
+			case 1:
+				what = "state one load below the " + p.role
+			case nLv - 1:
 				what = "state reachable from the " + p.role
 			}
 			if m := s.mods[sl]; m != nil {
@@ -61,7 +62,7 @@ func checkC11(c *Ctx, r *Report) {
 			}
 		}
 		leak := ""
-		for _, sl := range []int{2 * p.idx, 2*p.idx + 1} {
+		for _, sl := range paramSlots(p.idx) {
 			if s.flows[sl][-1] {
 				leak = e.Chain(s.flowWhy[[2]int{sl, -1}])
 			}
@@ -84,7 +85,7 @@ func checkC11(c *Ctx, r *Report) {
 
 func e1Assumptions(r *Report, e *E1) {
 	r.Assumption("user callbacks (Unpacker.Unpack, Validator.Validate, Initializer.InitDefaults, resolver functions, flag.FileLoader) read their arguments and do not mutate configs")
-	r.Assumption("E1 merges all objects reachable from one parameter into a shallow and a deep blob; parameters are assumed not to alias each other at entry")
+	r.Assumption("E1 merges the objects reachable from one parameter into three blobs by depth (the object itself, one load below, everything deeper); parameters are assumed not to alias each other at entry")
 	r.Assumption("reflect sink cut: what is stored into reflect-addressed storage (the caller's unpack target) is not tracked through that storage; captured *Config pointers in a target are the caller's responsibility")
 	r.Assumption("valueCache.cachedValue(id, f) is modelled as 'returns what f returns' (per-call cache, primitives only — see C08 R08e)")
 	var ks []string
